@@ -292,9 +292,35 @@ pub fn check_roundtrip(ops: &[Op], info: &mut CaseInfo) -> Result<(), Failure> {
     check_text_against(&wrote, &text, "roundtrip")
 }
 
+/// A resolver like `NoResolve` whose options do not tolerate operator errors (`allow_invalid_ops: false`; both stock option
+/// sets tolerate them, which hides an operator that is wrongly rejected): used where the text is well-formed by construction.
+pub struct StrictOps;
+impl pdf::object::Resolve for StrictOps {
+    fn resolve_flags(&self, _: pdf::object::PlainRef, _: pdf::parser::ParseFlags, _: usize) -> pdf::error::Result<pdf::primitive::Primitive> {
+        Err(pdf::error::PdfError::Reference)
+    }
+    fn get<T: pdf::object::Object + datasize::DataSize>(&self, _r: pdf::object::Ref<T>) -> pdf::error::Result<pdf::object::RcRef<T>> {
+        Err(pdf::error::PdfError::Reference)
+    }
+    fn options(&self) -> &pdf::object::ParseOptions {
+        static O: pdf::object::ParseOptions = pdf::object::ParseOptions { allow_error_in_option: false, allow_xref_error: false, allow_invalid_ops: false, allow_missing_endobj: false };
+        &O
+    }
+    fn get_data_or_decode(&self, _: pdf::object::PlainRef, _: std::ops::Range<usize>, _: &[pdf::enc::StreamFilter]) -> pdf::error::Result<std::sync::Arc<[u8]>> {
+        Err(pdf::error::PdfError::Reference)
+    }
+    fn stream_data(&self, _: pdf::object::PlainRef, _: std::ops::Range<usize>) -> pdf::error::Result<std::sync::Arc<[u8]>> {
+        Err(pdf::error::PdfError::Reference)
+    }
+}
+
 pub fn check_text_against(want: &[OpDesc], text: &[u8], what: &str) -> Result<(), Failure> {
-    let art = || json!({"want": want, "text": Bytes::new(text), "what": what});
-    let got = match panics::catch(|| parse_ops(text, &NoResolve)) {
+    check_text_against_opts(want, text, what, false)
+}
+
+pub fn check_text_against_opts(want: &[OpDesc], text: &[u8], what: &str, strict_ops: bool) -> Result<(), Failure> {
+    let art = || json!({"want": want, "text": Bytes::new(text), "what": what, "strict_ops": strict_ops});
+    let got = match panics::catch(|| if strict_ops { parse_ops(text, &StrictOps) } else { parse_ops(text, &NoResolve) }) {
         Err(p) => return Err(panic_failure(&p, art())),
         Ok(Err(e)) => return Err(Failure::new(format!("c08:{}:parse-error", what), format!("{:?}; text={:?}", e, Bytes::new(text)), art())),
         Ok(Ok(g)) => g,
@@ -316,6 +342,10 @@ pub struct TableCase {
     pub ops: Vec<(usize, Vec<Val>)>,
     pub tape: Vec<u8>,
 }
+
+/// pseudo operator numbers >= UNKNOWN_BASE stand for operators that do not exist (compatibility sections)
+pub const UNKNOWN_BASE: usize = 1000;
+pub const UNKNOWN: [&str; 8] = ["foo", "XX", "zz", "Tq", "sx", "BXX", "EXX", "unknownop"];
 
 pub const OPERATORS: [&str; 73] = [
     "b", "B", "b*", "B*", "BDC", "BI", "BMC", "BT", "BX", "c", "cm", "CS", "cs", "d", "d0", "d1", "Do", "DP", "EI", "EMC", "ET", "EX", "f", "F", "f*", "G", "g", "gs", "h", "i", "ID", "j", "J", "K", "k", "l", "m", "M", "MP", "n", "q", "Q", "re", "RG", "rg", "ri", "s", "S", "SC", "sc", "SCN", "scn", "sh", "T*", "Tc", "Td", "TD", "Tf", "Tj", "TJ", "TL", "Tm", "Tr", "Ts", "Tw", "Tz", "v", "w", "W", "W*", "y", "'", "\"",
@@ -535,8 +565,32 @@ pub fn render_table(c: &TableCase, disabled: &[String]) -> TableRendered {
     let mut compat = false;
     let mut operators = Vec::new();
     let mut first = true;
+    let mut depth = 0u32; // nesting of BX ... EX (ISO 32000-1 Table 32: "until the balancing EX")
     for (i, args) in &c.ops {
+        if *i >= UNKNOWN_BASE {
+            // an operator that does not exist: legal (and ignored with its operands) only inside a compatibility section
+            if depth == 0 {
+                continue;
+            }
+            if !first {
+                p.sep(false);
+            }
+            first = false;
+            for a in args {
+                p.val(a);
+                p.sep(false);
+            }
+            let name = UNKNOWN[(*i - UNKNOWN_BASE) % UNKNOWN.len()];
+            p.raw(name.as_bytes());
+            operators.push(format!("unknown@depth{}", depth.min(4)));
+            continue;
+        }
         let op = OPERATORS[*i];
+        match op {
+            "BX" => depth += 1,
+            "EX" => depth = depth.saturating_sub(1),
+            _ => {}
+        }
         // `v` is only unambiguous after an operator that defines the current point
         if op == "v" && cur.is_none() {
             continue;
@@ -588,6 +642,11 @@ pub fn render_table(c: &TableCase, disabled: &[String]) -> TableRendered {
         p.raw(op.as_bytes());
         want.extend(expand(op, args, &mut cur, &mut start, &mut compat));
     }
+    // sections still open are closed
+    for _ in 0..depth {
+        p.sep(false);
+        p.raw(b"EX");
+    }
     // the text ends with white-space as content streams do
     p.raw(b"\n");
     let text = Bytes(std::mem::take(&mut p.out));
@@ -599,6 +658,26 @@ pub fn table_strategy(max_ops: usize) -> impl Strategy<Value = TableCase> {
     (proptest::collection::vec((0usize..OPERATORS.len()).prop_flat_map(|i| operands(i).prop_map(move |a| (i, a))), 1..=max_ops), gen::tape(120)).prop_map(|(ops, tape)| TableCase { ops, tape })
 }
 
+/// Compatibility sections nested up to any depth: unknown operators with operands inside them are ignored, known operators
+/// keep their meaning, and the section only ends at the balancing EX.
+pub fn compat_strategy() -> impl Strategy<Value = TableCase> {
+    let known: Vec<usize> = ["q", "Q", "w", "m", "l", "S", "Tc", "g", "cm", "BT", "ET"].iter().map(|o| OPERATORS.iter().position(|p| p == o).unwrap()).collect();
+    let bx = OPERATORS.iter().position(|p| *p == "BX").unwrap();
+    let ex = OPERATORS.iter().position(|p| *p == "EX").unwrap();
+    let unknown = (0usize..UNKNOWN.len(), proptest::collection::vec(prop_oneof![n_strategy(), vname()], 0..4)).prop_map(|(k, a)| (UNKNOWN_BASE + k, a));
+    let item = prop_oneof![
+        3 => Just((bx, vec![])),
+        2 => Just((ex, vec![])),
+        4 => unknown,
+        3 => proptest::sample::select(known).prop_flat_map(|i| operands(i).prop_map(move |a| (i, a))),
+    ];
+    (proptest::collection::vec(item, 3..16), gen::tape(120)).prop_map(|(mut ops, tape)| {
+        // always begin inside a section so that most cases nest
+        ops.insert(0, (OPERATORS.iter().position(|p| *p == "BX").unwrap(), vec![]));
+        TableCase { ops, tape }
+    })
+}
+
 /// Path construction and painting operators only, so that the current point is exercised across m l c v y h re and the
 /// closing painters (v after h / re / s / b takes the start of the closed subpath, 8.5.2.1).
 pub fn path_strategy(max_ops: usize) -> impl Strategy<Value = TableCase> {
@@ -608,6 +687,10 @@ pub fn path_strategy(max_ops: usize) -> impl Strategy<Value = TableCase> {
 }
 
 pub fn run_table(c: &TableCase, info: &mut CaseInfo) -> Result<(), Failure> {
+    run_table_opts(c, info, false)
+}
+
+pub fn run_table_opts(c: &TableCase, info: &mut CaseInfo, strict_ops: bool) -> Result<(), Failure> {
     let r = render_table(c, &[]);
     for o in &r.operators {
         info.label(format!("operator/{}", o));
@@ -615,7 +698,7 @@ pub fn run_table(c: &TableCase, info: &mut CaseInfo) -> Result<(), Failure> {
     info.nontrivial(!r.operators.is_empty());
     info.distinct(&r.text.0);
     info.sample = Some(json!({"text": Bytes::new(&r.text[..r.text.len().min(200)]), "operators": r.operators}));
-    check_text_against(&r.want, &r.text, &format!("table[{}]", r.operators.join(" ")))
+    check_text_against_opts(&r.want, &r.text, &format!("table[{}]", r.operators.join(" ")), strict_ops)
         .map_err(|mut f| {
             // keys name the single operator when there is one
             if r.operators.len() > 1 {
@@ -629,7 +712,7 @@ pub fn replay(_ctx: &Ctx, _check: &str, art: &serde_json::Value, info: &mut Case
     info.nontrivial(true);
     let want: Vec<OpDesc> = serde_json::from_value(art["want"].clone()).map_err(|e| Failure::new("harness-bad-artifact", e.to_string(), art.clone()))?;
     let text: Bytes = serde_json::from_value(art["text"].clone()).map_err(|e| Failure::new("harness-bad-artifact", e.to_string(), art.clone()))?;
-    check_text_against(&want, &text, art["what"].as_str().unwrap_or("replay"))
+    check_text_against_opts(&want, &text, art["what"].as_str().unwrap_or("replay"), art["strict_ops"].as_bool().unwrap_or(false))
 }
 
 pub fn run(ctx: &Ctx) {
@@ -655,6 +738,8 @@ pub fn run(ctx: &Ctx) {
     ctx.run_cases("operator-table-sequences", scases, || table_strategy(6), |c, info| run_table(c, info));
     let pcases = ctx.tier.pick(10_000, 400_000);
     ctx.run_cases("path-current-point", pcases, || path_strategy(8), |c, info| run_table(c, info));
+    let ccases = ctx.tier.pick(6_000, 300_000);
+    ctx.run_cases("compatibility-sections", ccases, compat_strategy, |c, info| run_table_opts(c, info, true));
     // unknown operators are ignored inside BX ... EX and operands do not leak out
     ctx.run_one("compatibility-section", "BX-EX", |info| {
         info.nontrivial(true);
@@ -663,4 +748,4 @@ pub fn run(ctx: &Ctx) {
     });
 }
 
-pub const RULE: &str = "cases = (a) sequences of operations over every Op variant except InlineImage (which the serializer rejects) with finite f32 operands, Unicode names and arbitrary byte strings, biased towards the adjacency patterns behind the writer's shorthands (s b b* ' \" TD v y); (b) each of the 73 operators of ISO 32000-1 Table A.1 with generated well-formed operands spelled by the randomised printer, alone and in sequences of 1-6; oracle = (a) parse_ops(serialize_ops(ops)) equals ops under an independent structural description, (b) the parsed operations equal the table's expansion with operands in order, sequences giving the concatenation (no operand leaks), v using the tracked current point (which h, s, b, b* return to the start of the subpath and re sets to the rectangle's origin; extra section of path operators only); non-trivial (a) = a shorthand fired in the written text, (b) = at least one operator; distinct by text";
+pub const RULE: &str = "cases = (a) sequences of operations over every Op variant except InlineImage (which the serializer rejects) with finite f32 operands, Unicode names and arbitrary byte strings, biased towards the adjacency patterns behind the writer's shorthands (s b b* ' \" TD v y); (b) each of the 73 operators of ISO 32000-1 Table A.1 with generated well-formed operands spelled by the randomised printer, alone and in sequences of 1-6; oracle = (a) parse_ops(serialize_ops(ops)) equals ops under an independent structural description, (b) the parsed operations equal the table's expansion with operands in order, sequences giving the concatenation (no operand leaks), v using the tracked current point (which h, s, b, b* return to the start of the subpath and re sets to the rectangle's origin; extra section of path operators only), and compatibility sections nested to any depth with non-existent operators and operands inside (ignored until the balancing EX; parsed with allow_invalid_ops = false, because both stock option sets swallow operator errors); non-trivial (a) = a shorthand fired in the written text, (b) = at least one operator; distinct by text";
